@@ -242,6 +242,35 @@ def sweep(ctx, n):
             if not err < tol:
                 fails.append({"key": f"integral-law:{key}", "desc": f"flux/circulation law violated (relative {err:.2g})",
                               "replay": {"kind": kind, "source": repr(src), "centre": np.asarray(c).tolist(), "rel": float(err)}})
+    # FAR surfaces and loops: a closed box whose faces lie 60 … 190 source sizes away (face centres nearer, corners farther: the
+    # surface crosses any sphere r = const x size in that range) and a circle of such a radius around an elongated / flat body —
+    # if the returned field switched to another expression beyond some distance, the patched field would not be source-free there
+    from oracles.sources import local_size
+    with warnings.catch_warnings():
+        warnings.simplefilter("ignore")
+        for i in range(max(6, n // 5)):
+            nps = np.random.default_rng(rng.randrange(2**31))
+            cls = MAGNETS[i % len(MAGNETS)]
+            src = make(cls, nps)
+            if cls == "Cuboid":
+                src.dimension = np.array(src.dimension) * rng.choice([(1, 2, 4), (5, 4, 0.8), (1, 1, 5), (3, 1, 1)])
+            src.rotate(R.random(rng=nps))
+            L = float(local_size(src))
+            if i % 2 == 0:
+                c, half = nps.uniform(-10, 10, 3) * L, nps.uniform(60, 110, 3) * L
+                tot, mag = box_flux(lambda p: src.getB(p), c, half, 32)
+                key = "far-flux"
+            else:
+                c, rad, rot = nps.uniform(-10, 10, 3) * L, nps.uniform(70, 150) * L, R.random(rng=nps)
+                c = c + rot.apply([rad * nps.uniform(0.2, 0.6), 0, 0])  # off-centre: the loop's distance from the body varies along it
+                tot, mag = circulation(lambda p: src.getH(p), c, rad, rot, 200)
+                key = "far-circulation"
+            err = abs(tot) / (mag + 1e-300)
+            done += 1
+            worst[key] = max(worst.get(key, 0.0), float(err))
+            if not err < 2e-7:
+                fails.append({"key": f"integral-law:{key}:{cls}", "desc": f"{'net flux of B through a closed box' if key == 'far-flux' else 'circulation of H around a circle'} 60 … 190 source sizes "
+                              f"away from a {cls} is not zero (relative {err:.2g})", "replay": {"class": cls, "source": repr(src), "centre": np.asarray(c).tolist(), "rel": float(err)}})
     # after the main loop (the case sequence above is unchanged): the proved Cuboid Jacobian against the real kernel
     with warnings.catch_warnings():
         warnings.simplefilter("ignore")
